@@ -1816,10 +1816,10 @@ fn main() {
         Some("run") => {
             let seed: u64 = args[2].parse().expect("seed");
             let tier = args.get(3).map(|s| s.as_str()).unwrap_or("quick");
-            let total: u64 = match tier { "thorough" => 6000, "search" => 1200, _ => 240 };
+            let total: u64 = match tier { "thorough" => 40000, "search" => 4000, _ => 1500 };
             let mut rep = Report::default();
             let seed_s = seed.to_string();
-            worker::run_batches(&[&seed_s, tier], total, 60, Duration::from_secs(900), &mut rep, |rep, last, ended| {
+            worker::run_batches(&[&seed_s, tier], total, 250, Duration::from_secs(900), &mut rep, |rep, last, ended| {
                 let how = match ended {
                     Ended::Signal(s, _) => format!("signal {s}"),
                     Ended::Timeout => "timeout".into(),
